@@ -8,7 +8,7 @@ from sx.shims import STUBS  # noqa
 from .layout import LayoutShape
 
 ID = 'C04'
-BUDGET_S = {'quick': 170, 'thorough': 2400}
+BUDGET_S = {'quick': 170, 'thorough': 3600}
 SHAPE_WALL_S = {'quick': 150, 'thorough': 900}
 FAMILY = ('PIPE: k <= 4 byte-producing lines (instruction, data, fill of symbolic length, predefined block, lines in '
           'zones, zone-relative origins, an included file), each placed by `.org a_i` with a_i symbolic; every source '
@@ -94,6 +94,14 @@ def shapes(tier, seed):
                 [('org', V('a0'), None), KINDS['i1'], ('align', C(8)), KINDS['d2'], ('org', V('a1'), None), KINDS['d4']],
                 ['a0', 'a1']))
     if tier != 'quick':
+        # image-level triples (one path per placement: addresses 0..9)
+        for t in [('i3', 'd2', 'd4'), ('d4', 'zn', 'i1'), ('m2', 'd2', 'i1'), ('fn', 'i3', 'zn')]:
+            for o in itertools.permutations(range(3)):
+                prog = []
+                for idx in o:
+                    prog += [('org', V(f'a{idx}'), None), KINDS[t[idx]]]
+                syms = ['a0', 'a1', 'a2'] + (['n'] if 'zn' in t else []) + (['m'] if 'fn' in t else [])
+                S.append(mk(f'image-triple:{"-".join(t)}:{"".join(map(str, o))}', prog, syms, binary=True))
         quad = ('i3', 'd2', 'zn', 'i1')
         for o in itertools.permutations(range(4)):
             prog = []
